@@ -157,15 +157,16 @@ def guards(ctx, f_init, f_solve):
     def find(pred):
         return [(n, gs) for n, gs in rg if gs and pred(norm(xt(gs[-1][0].test)))]
     # epsilon > 1
-    hit = find(lambda t: "epsilon" in t and ">" in t)
+    hit = find(lambda t: "epsilon" in t and ("<" in t or ">" in t))
     ok = False
     det = None
     if len(hit) == 1:
         test = xt(hit[0][1][-1][0].test)
         cmps = [c for c in ast.walk(test) if isinstance(c, ast.Compare)]
         det = norm(test)
-        ok = len(cmps) == 1 and isinstance(cmps[0].ops[0], ast.Gt) and isinstance(cmps[0].comparators[0], ast.Constant) \
-            and cmps[0].comparators[0].value == 1 and "any" in det and hit[0][1][-1][1] == "true"
+        # canonical spelling: `epsilon > 1` reads `1 < epsilon`
+        ok = len(cmps) == 1 and isinstance(cmps[0].ops[0], ast.Lt) and isinstance(cmps[0].left, ast.Constant) \
+            and cmps[0].left.value == 1 and "any" in det and hit[0][1][-1][1] == "true"
     ctx.ob("R19.3", "epsilon: rejected iff any(epsilon > 1) (accepts = 1, rejects > 1)", ok, detail=det, where=f_init.fq,
            construct="epsilon guard", loc=loc(f_init, hit[0][0]) if hit else "", message=f"epsilon guard is `{det}`",
            consequence="epsilon = 1 (the clean superconductor) is rejected, or epsilon slightly above 1 accepted")
